@@ -1,11 +1,126 @@
-/- Line-protocol driver for C06 (stub until the property's models exist). -/
-import PyIpmi.Base.Proto
-open PyIpmi.Proto
+/-
+  Line-protocol driver for C06 (LAN session establishment).  Stateful: holds the reference BMC.
 
-def handleC06 (line : String) : String :=
+    bmc-init <caps> <user hex> <pw hex> <priv> <tempSid> <challenge hex> <sid> <inSeq0>  -> ok
+    bmc <datagram hex>                 -> reply <hex> | error <rule>        (Spec.BmcSession.step)
+    bmc-err <cc> <datagram hex>        -> same judgement, but the answer carries completion code <cc>
+    bmc-state                          -> <phase> <first broken rule | none>
+    model <pref s|i|g> <emptyRx s|i> <ignore 0|1> <user hex> <pw hex> <priv> <outSeq> <n>
+          <sid0> <seq0> <act0 0|1> <rqSeq0> <reply hex | silent>*
+        -> <outcome> | <kind>:<datagram hex> … | <auth> <sid> <seq> <activated> <rqSeq> <attached>
+          (Model.Session.lifecycle against the scripted replies)
+    loop  <pref s|i|g> <caps> <user hex> <pw hex> <priv> <tempSid> <challenge hex> <sid> <inSeq0> <outSeq> <n>
+        -> <outcome> | <phase> <first broken rule | none> | <number of datagrams>
+          (Model client against the Spec BMC, all in Lean)
+    choose <pref s|i|g> <support>      -> <auth type> | none                 (Model.Session.chooseAuth)
+    strongest <support> <implemented,…>-> <auth type> | none                 (Spec: strongest offered ∩ implemented)
+-/
+import PyIpmi.Base.Proto
+import PyIpmi.Model.Md5
+import PyIpmi.Model.Session
+import PyIpmi.Spec.BmcSession
+open PyIpmi PyIpmi.Proto PyIpmi.RmcpWire PyIpmi.Session
+
+def md5f : List Nat → List Nat := PyIpmi.Md5.md5
+
+structure DState where
+  cfg : Spec.BmcSession.BmcCfg
+  st : Spec.BmcSession.BmcState
+
+def DState.init : DState := ⟨⟨0, [], [], 4, 0, [], 0, 0⟩, Spec.BmcSession.init⟩
+
+def phaseName : Spec.BmcSession.Phase → String
+  | .start => "start" | .pinged => "pinged" | .capsSent => "capsSent"
+  | .challenged a => s!"challenged:{a}" | .active a _ => s!"active:{a}" | .closed => "closed"
+
+def badName : Option Spec.BmcSession.Why → String
+  | none => "none"
+  | some w => w.name
+
+def prefOf (s : String) : List Nat :=
+  if s == "s" then prefAsShipped else if s == "i" then prefIntended else Gen.RmcpFormats.authPreference
+
+def kindName : Kind → String
+  | .ping => "ping" | .authCap => "authCap" | .challenge => "challenge" | .activate => "activate"
+  | .setPriv => "setPriv" | .request => "request" | .close => "close"
+
+def parseReply (s : String) : Option (Option (List Nat)) :=
+  if s == "silent" then some none else (ofHex s).map some
+
+def showSent (s : Sent) : String :=
+  if s.isEmpty then "-" else " ".intercalate (s.map fun (k, d) => s!"{kindName k}:{toHex d}")
+
+def b2n (b : Bool) : Nat := if b then 1 else 0
+
+/-- the reference BMC as a peer of the model client -/
+def bmcPeer (cfg : Spec.BmcSession.BmcCfg) := Spec.BmcSession.peer md5f cfg
+
+def handleC06 (ds : DState) (line : String) : DState × String :=
   match tokens line with
-  | ["ping"] => "pong"
-  | _ => "bad-op"
+  | ["bmc-init", caps, user, pw, priv, tmp, chal, sid, inSeq] =>
+    match caps.toNat?, ofHex user, ofHex pw, priv.toNat?, tmp.toNat?, ofHex chal, sid.toNat?, inSeq.toNat? with
+    | some caps, some user, some pw, some priv, some tmp, some chal, some sid, some inSeq =>
+      (⟨⟨caps, user, pw, priv, tmp, chal, sid, inSeq⟩, Spec.BmcSession.init⟩, "ok")
+    | _, _, _, _, _, _, _, _ => (ds, "bad-op")
+  | ["bmc", dg] =>
+    match ofHex dg with
+    | some dg =>
+      match Spec.BmcSession.step md5f ds.cfg ds.st dg with
+      | (st', .reply r) => ({ ds with st := st' }, "reply " ++ toHex r)
+      | (st', .protocolError w) => ({ ds with st := st' }, "error " ++ w.name)
+    | none => (ds, "bad-op")
+  | ["bmc-err", cc, dg] =>
+    match cc.toNat?, ofHex dg with
+    | some cc, some dg =>
+      match Spec.BmcSession.step md5f ds.cfg ds.st dg with
+      | (st', .reply _) =>
+        let r := match Spec.Lan.parseLan dg with
+          | some p =>
+            match Spec.BmcSession.parseIpmiReq p.payload with
+            | some rq => Spec.BmcSession.lanPacket md5f p.auth ds.cfg.pw p.sid ds.st.outSeq
+                            (Spec.BmcSession.ipmiRsp rq cc [])
+            | none => []
+          | none => []
+        ({ ds with st := st' }, "reply " ++ toHex r)
+      | (st', .protocolError w) => ({ ds with st := st' }, "error " ++ w.name)
+    | _, _ => (ds, "bad-op")
+  | ["bmc-state"] => (ds, s!"{phaseName ds.st.phase} {badName ds.st.bad}")
+  | "model" :: pref :: er :: ig :: user :: pw :: priv :: outSeq :: n :: sid0 :: seq0 :: act0 :: rq0 :: replies =>
+    match ofHex user, ofHex pw, priv.toNat?, outSeq.toNat?, n.toNat?, sid0.toNat?, seq0.toNat?, rq0.toNat?,
+          replies.mapM parseReply with
+    | some user, some pw, some priv, some outSeq, some n, some sid0, some seq0, some rq0, some replies =>
+      let cfg : Cfg := { user := user, pw := pw, priv := priv, outSeq := outSeq, pref := prefOf pref,
+                         ignoreLen := ig == "1", emptyRx := if er == "s" then .asShipped else .intended }
+      let c0 : Client := ⟨false, ⟨Gen.RmcpFormats.authPassword, sid0, seq0, act0 == "1", pw⟩, rq0⟩
+      let r := lifecycle md5f scripted cfg n replies c0
+      let c := r.client
+      (ds, s!"{r.outcome.tag} | {showSent r.sent} | {c.s.auth} {c.s.sid} {c.s.seq} {b2n c.s.activated} {c.rqSeq} {b2n c.attached}")
+    | _, _, _, _, _, _, _, _, _ => (ds, "bad-op")
+  | ["loop", pref, caps, user, pw, priv, tmp, chal, sid, inSeq, outSeq, n] =>
+    match caps.toNat?, ofHex user, ofHex pw, priv.toNat?, tmp.toNat?, ofHex chal, sid.toNat?, inSeq.toNat?,
+          outSeq.toNat?, n.toNat? with
+    | some caps, some user, some pw, some priv, some tmp, some chal, some sid, some inSeq, some outSeq, some n =>
+      let bcfg : Spec.BmcSession.BmcCfg := ⟨caps, user, pw, priv, tmp, chal, sid, inSeq⟩
+      let cfg : Cfg := { user := user, pw := pw, priv := priv, outSeq := outSeq, pref := prefOf pref,
+                         ignoreLen := false, emptyRx := .asShipped }
+      let r := lifecycle md5f (bmcPeer bcfg) cfg n Spec.BmcSession.init (Client.fresh pw)
+      (ds, s!"{r.outcome.tag} | {phaseName r.peer.phase} {badName r.peer.bad} | {r.sent.length}")
+    | _, _, _, _, _, _, _, _, _, _ => (ds, "bad-op")
+  | ["choose", pref, sup] =>
+    match sup.toNat? with
+    | some sup =>
+      (ds, match chooseAuth (prefOf pref) sup with
+           | some a => toString a
+           | none => "none")
+    | none => (ds, "bad-op")
+  | ["strongest", sup, impl] =>
+    match sup.toNat?, parseNatList impl with
+    | some sup, some impl =>
+      (ds, match Spec.BmcSession.strongest sup (Spec.BmcSession.strengthOrder.filter (impl.contains ·)) with
+           | some a => toString a
+           | none => "none")
+    | _, _ => (ds, "bad-op")
+  | _ => (ds, "bad-op")
 
 def main : IO Unit := do
-  loop (← IO.getStdin) (← IO.getStdout) handleC06
+  loopS (← IO.getStdin) (← IO.getStdout) handleC06 DState.init
